@@ -1422,7 +1422,9 @@ func buildFromStringProto(src protoreflect.FieldDescriptor, ext protoFieldExtens
 	psmKeyExt := proto.GetExtension(src.Options(), ext_j5pb.E_Key).(*ext_j5pb.PSMKeyFieldOptions)
 
 	if openText := listRules.GetOpenText(); openText != nil {
-		if stringItem.Format != nil {
+		// open text cannot be a key; the formats of plain strings (email,
+		// hostname, uri, ...) go with it
+		if stringItem.Format != nil && (looksLikeKey || *stringItem.Format == id62Format) {
 			return nil, fmt.Errorf("open_text and format %q do not match", *stringItem.Format)
 		}
 
